@@ -653,12 +653,9 @@ class TaskPool:
                 # Re-prepare same submit.
                 itask.submit_num -= 1
 
-            # Running or finished task can have completed custom outputs.
-            if itask.state(
-                    TASK_STATUS_RUNNING,
-                    TASK_STATUS_FAILED,
-                    TASK_STATUS_SUCCEEDED
-            ):
+            # Restore the outputs completed before the restart (there is no
+            # task_outputs row for a task that has not yet completed any).
+            if outputs_str:
                 for message in json.loads(outputs_str):
                     itask.state.outputs.set_message_complete(message)
                     self.data_store_mgr.delta_task_output(itask, message)
